@@ -144,6 +144,7 @@ type verifC02World struct {
 	order       int
 	allowCancel bool
 	cf          verifC02Conf
+	strict      bool // check "failed => absent" against the ghost log (see VerifC02_failedAbsent)
 	noWire      bool // do not serialise requests (symbolic sequence numbers)
 	injected    bool // the broker answered an OUT_OF_ORDER_SEQUENCE_NUMBER of its own
 	idFatal     bool // the producer id failed fatally and the drain failed everything buffered
@@ -587,7 +588,7 @@ func (w *verifC02World) final() {
 	verifAssert(once, "a record's promise runs at most once")
 	verifAssert(inOrder, "promises run in produce order")
 	verifAssert(okOffset, "an acknowledged record is in the log exactly once at the promised offset")
-	if !w.allowCancel && !w.injected {
+	if w.strict && !w.allowCancel && !w.injected {
 		verifAssert(okAbsent, "a record whose promise reports an error is not in the log")
 	}
 }
@@ -606,8 +607,9 @@ const (
 	verifC02ActResolve // + fate
 )
 
-func verifC02Run(k int, sizes []int, fresh bool, cf verifC02Conf) {
+func verifC02Run(k int, sizes []int, fresh bool, cf verifC02Conf, strict bool) {
 	w := verifC02Build(sizes, fresh, cf)
+	w.strict = strict
 	w.checkI2()
 	w.run(k)
 }
@@ -685,7 +687,28 @@ func VerifC02_cosim() {
 	sizes := shapes[verifChoose(len(shapes))]
 	fresh := verifChoose(2) == 0
 	cf := confs[verifChoose(len(confs))]
-	verifC02Run(k, sizes, fresh, cf)
+	verifC02Run(k, sizes, fresh, cf, false)
+}
+
+// VerifC02_failedAbsent: the property's last sentence taken literally, checked against the
+// ghost log: with the default configuration (no AllowIdempotentProduceCancellation) a record
+// whose promise reports an error is not in the partition's log. VerifC02_cosim checks the
+// weaker rule the option docs state (a limit may fail a batch once it "was requested and
+// received a response"); this harness checks what the caller observes. Configurations in which
+// a client-side limit can fire: RecordRetries, record context cancellation, and (thorough)
+// RecordDeliveryTimeout and the aborting flag.
+func VerifC02_failedAbsent() {
+	k := 4
+	shapes := [][]int{{2}, {2, 1}}
+	confs := []verifC02Conf{{trig: verifC02TrigRetries}, {trig: verifC02TrigCtx}}
+	if verifThorough() {
+		k = 5
+		confs = append(confs, verifC02Conf{trig: verifC02TrigTimeout}, verifC02Conf{trig: verifC02TrigAbort}, verifC02Conf{trig: verifC02TrigNone})
+	}
+	sizes := shapes[verifChoose(len(shapes))]
+	fresh := verifChoose(2) == 0
+	cf := confs[verifChoose(len(confs))]
+	verifC02Run(k, sizes, fresh, cf, true)
 }
 
 // VerifC02_symbolicSeq: the same machine from every 31-bit first sequence number. The
